@@ -194,7 +194,7 @@ func faulty(w http.ResponseWriter, health string) bool {
 	return false
 }
 
-func statsJSON(n MNode, topic, channel string, inconsistent bool) interface{} {
+func statsJSON(n MNode, topic, channel string, inconsistent bool, withClients bool) interface{} {
 	var ts []interface{}
 	for _, t := range n.Topics {
 		if topic != "" && t.Name != topic {
@@ -212,6 +212,10 @@ func statsJSON(n MNode, topic, channel string, inconsistent bool) interface{} {
 					m["user_agent"], m["in_flight_count"], m["ready_count"], m["finish_count"], m["requeue_count"], m["message_count"], m["sample_rate"], m["tls"], m["deflate"] = "ua/1", 1, 2, 3, 4, 5, 6, true, true
 				}
 				cl = append(cl, m)
+			}
+			if !withClients {
+				// like nsqd: include_clients=false reports client_count but no client list
+				cl = []interface{}{}
 			}
 			d := c.Depth
 			if inconsistent {
@@ -268,7 +272,7 @@ func newStubs() *stubs {
 				json.NewEncoder(w).Encode(map[string]interface{}{"version": "1.2.0", "broadcast_address": "127.0.0.1", "hostname": n.Host, "http_port": portOf(srv.Listener.Addr().String()), "tcp_port": 30000 + i})
 			case "/stats":
 				q := r.URL.Query()
-				json.NewEncoder(w).Encode(statsJSON(n, q.Get("topic"), q.Get("channel"), n.Health == "inconsistent"))
+				json.NewEncoder(w).Encode(statsJSON(n, q.Get("topic"), q.Get("channel"), n.Health == "inconsistent", q.Get("include_clients") != "false"))
 			default:
 				io.WriteString(w, "{}")
 			}
@@ -847,6 +851,9 @@ func RunView(c MCluster) vx.Out {
 					if num(cm, "depth") != w.Depth || num(cm, "in_flight_count") != w.InFlight || num(cm, "deferred_count") != w.Deferred || num(cm, "requeue_count") != w.Requeue || num(cm, "timeout_count") != w.Timeout || num(cm, "message_count") != w.Msgs {
 						bad("C18 aggregated channel numbers are not the sum over nodes", "/api/topics/%s channel %s: got depth %d in_flight %d deferred %d requeue %d timeout %d msgs %d, sums %+v", t, name, num(cm, "depth"), num(cm, "in_flight_count"), num(cm, "deferred_count"), num(cm, "requeue_count"), num(cm, "timeout_count"), num(cm, "message_count"), *w)
 					}
+					if num(cm, "client_count") != int64(len(w.Clients)) {
+						bad("C18 aggregated channel numbers are not the sum over nodes", "/api/topics/%s channel %s: client_count %d, the nodes report %d consumers in total", t, name, num(cm, "client_count"), len(w.Clients))
+					}
 				}
 			}
 			for name := range chanSum {
@@ -868,6 +875,9 @@ func RunView(c MCluster) vx.Out {
 				}
 				if cl, _ := cm["clients"].([]interface{}); len(cl) != len(w.Clients) {
 					bad("C18 client list is not the union over nodes", "/api/topics/%s/%s lists %d clients, nodes report %d", t, name, len(cl), len(w.Clients))
+				}
+				if num(cm, "client_count") != int64(len(w.Clients)) {
+					bad("C18 aggregated channel numbers are not the sum over nodes", "/api/topics/%s/%s: client_count %d, the nodes report %d consumers in total", t, name, num(cm, "client_count"), len(w.Clients))
 				}
 			}
 		}
